@@ -119,12 +119,14 @@ TEXT = {
         "technique": "Coq statement over state transformers (shallow) + reflection-driven call-sequence harness on the real code",
     },
     "C09": {
-        "text": "Theorems for the domain-name decoder (where the unbounded expansion was): for every accepted input each name is <= 253 octets and there is at most one name per input "
-                "octet, and the total number of loop iterations including all pointer excursions is <= 257 per input octet (cost semantics with explicit constants). For whole messages "
-                "the bound of the property (size <= 300 n + 4096; decode+re-encode allocation <= 1500 n + depth n + 4096) is measured on the real code over adversarial families up to "
-                "65 507 octets and by hill climbing.",
-        "note": COMMON_NOTE + "Partial: allocator behaviour cannot be proved in the model; only the name decoder's size/work bounds are theorems, message-level bounds are measurements with explicit constants.",
-        "technique": "Coq proof (size and step-count bounds of the name decoder) + allocation/deep-size measurement harness with adversarial families and hill climbing",
+        "text": "Theorems: (1) retained size, whole decoders: for EVERY accepted byte string the decoded DHCPv6 message (all 32 option types, any nesting) holds at most 256 octets per "
+                "input octet (C09_v6_size; per option 260 + 256 |value|, C09_v6_option_size) and a decoded DHCPv4 packet at most its input length (C09_v4_size); (2) the "
+                "domain-name decoder, where the unbounded expansion was: each name <= 253 octets, at most one name per input octet, and the total number of loop iterations including "
+                "all pointer excursions <= 257 per input octet (cost semantics with explicit constants); (3) re-encoding a decoded DHCPv6 message without embedded DHCPv4 never exceeds the "
+                "input length (C06_reencoding_no_longer_v6). The allocation bound of the property (decode+re-encode allocation <= 1500 n + depth n + 4096; size <= 300 n + 4096) is "
+                "measured on the real code over adversarial families up to 65 507 octets and by hill climbing.",
+        "note": COMMON_NOTE + "Partial: allocator behaviour (bytes allocated, as opposed to retained) cannot be proved in the model; it is measured with explicit constants.",
+        "technique": "Coq proof (retained-size bounds of both decoders; size and step-count bounds of the name decoder) + allocation/deep-size measurement harness with adversarial families and hill climbing",
     },
     "C12": {
         "text": "Theorem C12_schedule: for EVERY delivery stream in which nothing is accepted (silence or any stream of rejected same-id datagrams) exactly n transmissions at T(2^k - 1) and the "
